@@ -21,7 +21,7 @@ EXT = {"json": "json", "yaml": "yaml", "toml": "toml", "env": "env", "flags": "t
 FAULT_KINDS = ["eisdir", "enospc", "efbig", "nonutf8_source", "dangling_source"]
 PROBES = ["dual_built_before_importer", "dual_built_after_importer", "shared_lib_two_entries", "failing_first", "failing_middle",
           "failing_last", "same_basename_pair", "second_run_over_artifacts", "listed_twice", "dir_walk_order_differs_from_sorted",
-          "respelled_argument", "failing_lib_imported", "directory_and_files_mixed", "symlinked_template_pair"]
+          "respelled_argument", "failing_lib_imported", "directory_and_files_mixed", "symlinked_template_pair", "shared_data_included_under_two_types", "library_imports_its_sibling_by_name"]
 TIERS = {
     "quick": {"runs": 230, "wall_cap": 210},
     "thorough": {"runs": 3500, "wall_cap": 3300, "reexecute": 60},
@@ -49,7 +49,9 @@ def generate(rng, tier, idx):
             path = (d + "/" if d else "") + base + ".ucg"
         names_used.add(path)
         f = {"path": path, "role": role, "uid": "u%d%s" % (i, rng.token(5)), "shape": rng.choice(["int", "str"]),
-             "out": None, "imports": [], "std": rng.chance(25), "fail": None}
+             "out": None, "imports": [], "std": rng.chance(25), "fail": None,
+             # the project's one data file, included as text or decoded
+             "include": rng.weighted([(None, 7), ("str", 1), ("json", 1), ("yaml", 1)])}
         if role in ("entry", "dual"):
             f["out"] = rng.weighted([("json", 4), ("yaml", 3), ("toml", 2), ("env", 1), ("flags", 1)])
         if role == "failing":
@@ -78,6 +80,16 @@ def generate(rng, tier, idx):
         files[a]["shape"], files[b]["shape"] = "int", "str"
         files[0]["imports"] = [imp for imp in files[0]["imports"] if imp["target"] not in (a, b)] + [
             {"target": a, "spelling": rng.choice(SPELL)}, {"target": b, "spelling": rng.choice(SPELL)}]
+        if rng.chance(60):
+            # ... and a library next to the first `shared.ucg` imports it as a sibling (bare let-import, plain spelling) and re-exports a typed
+            # value; an entry living next to the *other* `shared.ucg` imports that library.  Anything resolved against the importer's
+            # directory, or cached per name, mixes the two up - possibly only in one order of the batch.
+            files.append({"path": (d1 + "/" if d1 else "") + "mid.ucg", "role": "lib", "uid": "mid" + rng.token(5), "shape": "int", "out": None,
+                          "imports": [{"target": a, "spelling": "plain"}], "std": False, "fail": None, "reexport": True})
+            files.append({"path": (d2 + "/" if d2 else "") + "uses_mid.ucg", "role": "entry", "uid": "um" + rng.token(5), "shape": "int", "out": "json",
+                          "imports": [{"target": len(files) - 1, "spelling": rng.choice(["plain", "dot", "dotdot"])}, {"target": b, "spelling": "plain"}],
+                          "std": False, "fail": None})
+            n = len(files)
         if files[0]["role"] == "lib":
             files[0]["role"], files[0]["out"] = "entry", "json"
         if files[b]["imports"]:
@@ -162,7 +174,10 @@ def render_file(world, i, root_abs):
     files = world["files"]
     f = files[i]
     L = ['let id = "%s";' % f["uid"]]
-    L.append("let n = 7;" if f["shape"] == "int" else 'let n = "seven";')
+    if f.get("reexport") and f["imports"]:
+        L.append("let n_placeholder = 0;")
+    else:
+        L.append("let n = 7;" if f["shape"] == "int" else 'let n = "seven";')
     L.append("let f = func (x) => x + id;")
     if f["std"]:
         L.append('let lists = import "std/lists.ucg";')
@@ -177,7 +192,14 @@ def render_file(world, i, root_abs):
         else:
             calc.append(("i%d.n + 1" % k) if t["shape"] == "int" else ('i%d.n + "s"' % k))
         calc.append('i%d.f("p%d-")' % (k, k))
+    if f.get("reexport") and f["imports"]:
+        L.append("let n = i0.n + 100;")     # typed re-export of the sibling's value
     L.append("let deps = " + (" + ".join(deps) if deps else "[]") + ";")
+    inc = f.get("include")
+    if inc:
+        rel = os.path.relpath("shared_data.json", os.path.dirname(f["path"]) or ".")
+        L.append('let inc = include %s "%s";' % (inc, rel))
+        calc.append("inc")
     L.append("let calc = [" + ", ".join(calc) + "];")
     if f["std"]:
         L.append('let joined = lists.str_join{sep="-", list=deps};')
@@ -292,6 +314,8 @@ class Copy:
         self.abs = sb.p(self.proj)
         sb.mkdir(self.proj)
         files = world["files"]
+        if any(f.get("include") for f in files):
+            sb.write(self.proj + "/shared_data.json", '{"k": [1, "two"], "s": "text"}\n')
         for i in world["creation"]:
             f = files[i]
             fault = world["fault"]
@@ -417,6 +441,10 @@ def execute(world, sb, res):
         res.probe("failing_lib_imported")
     if any(f.get("symlink_to") is not None for f in files):
         res.probe("symlinked_template_pair")
+    if len(set(f.get("include") for f in files if f.get("include"))) >= 2:
+        res.probe("shared_data_included_under_two_types")
+    if any(f.get("reexport") for f in files):
+        res.probe("library_imports_its_sibling_by_name")
 
     def closure(i, seen=None):
         seen = seen if seen is not None else set()
